@@ -502,6 +502,94 @@ def new_module_constants(tree, module_name, base):
     return sub.done
 
 
+def _as_expression(fdef):
+    """a helper made only of `if c: return a` ... `return b` (pure expressions) as one expression."""
+    body = [s for s in fdef.body if not (isinstance(s, ast.Expr) and isinstance(s.value, ast.Constant))]
+
+    def conv(stmts):
+        if not stmts:
+            return None
+        st = stmts[0]
+        if isinstance(st, ast.Return) and st.value is not None:
+            return st.value
+        if isinstance(st, ast.If):
+            a = conv(st.body)
+            b = conv(st.orelse) if st.orelse else conv(stmts[1:])
+            if a is None or b is None:
+                return None
+            return ast.IfExp(test=st.test, body=a, orelse=b)
+        return None
+    e = conv(body)
+    if e is None:
+        return None
+    for n in ast.walk(e):
+        if isinstance(n, (ast.Yield, ast.YieldFrom, ast.Lambda, ast.NamedExpr)):
+            return None
+    return e
+
+
+def inline_expression_helpers(tree, module_name, functions_of_class, base):
+    """calls of NEW helpers that are a single (conditional) expression, wherever they occur."""
+    done = 0
+    for cls in [None] + [c for c in tree.body if isinstance(c, ast.ClassDef)]:
+        holder = tree if cls is None else cls
+        cname = None if cls is None else cls.name
+        fns = functions_of_class(cname)
+
+        class T(ast.NodeTransformer):
+            def visit_Call(self, node):
+                nonlocal done
+                self.generic_visit(node)
+                f = node.func
+                d = None
+                skip = 0
+                if isinstance(f, ast.Attribute) and isinstance(f.value, ast.Name) and f.value.id in ("self", "cls") and cname:
+                    d = fns.get(f.attr)
+                    if d is not None and not any(isinstance(x, ast.Name) and x.id == "staticmethod" for x in d.decorator_list):
+                        skip = 1
+                elif isinstance(f, ast.Name) and cname is None:
+                    d = fns.get(f.id)
+                if d is None or node.keywords or not d.name.startswith("_") or d.name.startswith("__"):
+                    return node
+                q = "%s:%s.%s" % (module_name, cname, d.name) if cname else "%s:%s" % (module_name, d.name)
+                if q in base or d.args.vararg or d.args.kwarg or d.args.defaults:
+                    return node
+                names = [a.arg for a in d.args.args][skip:]
+                if len(names) != len(node.args) or not all(_arg_ok(a) for a in node.args):
+                    return node
+                e = _as_expression(d)
+                if e is None:
+                    return node
+                mapping = dict(zip(names, node.args))
+                e = copy.deepcopy(e)
+
+                class R(ast.NodeTransformer):
+                    def visit_Name(self, n_):
+                        if n_.id in mapping and isinstance(n_.ctx, ast.Load):
+                            return copy.deepcopy(mapping[n_.id])
+                        return n_
+                e = R().visit(e)
+                done += 1
+                return ast.copy_location(e, node)
+        for st in (holder.body if cls is not None else [s_ for s_ in tree.body if not isinstance(s_, ast.ClassDef)]):
+            T().visit(st)
+    if done:
+        ast.fix_missing_locations(tree)
+    return done
+
+
+def fold_constants(tree):
+    """"brotli" + "_accepts_limit" -> "brotli_accepts_limit" (constants that met through inlining)."""
+    class F(ast.NodeTransformer):
+        def visit_BinOp(self, node):
+            self.generic_visit(node)
+            if isinstance(node.op, ast.Add) and isinstance(node.left, ast.Constant) and isinstance(node.right, ast.Constant) \
+                    and type(node.left.value) is type(node.right.value) and isinstance(node.left.value, (str, bytes)):
+                return ast.copy_location(ast.Constant(value=node.left.value + node.right.value), node)
+            return node
+    F().visit(tree)
+
+
 def local_names(fn):
     return sorted({n.id for n in _own_walk(fn) if isinstance(n, ast.Name) and isinstance(n.ctx, ast.Store)})
 
@@ -529,6 +617,9 @@ def normalize_module(tree, module_name, sigs=None):
             return top
         return classes.get(name, {})
     n_inl = inline_new_helpers(tree, module_name, foc)
+    n_inl += inline_expression_helpers(tree, module_name, foc, base)
+    if n_inl:
+        fold_constants(tree)
     n_exp = 0
     for n in tree.body:
         if isinstance(n, ast.ClassDef):
